@@ -8,6 +8,34 @@ HERE = os.path.dirname(os.path.dirname(os.path.abspath(__file__)))
 HOOK_COMMITS = ["7e56da8"]
 
 CLAIMED = {
+    "C06": dict(
+        engine="procsim", category="exploration", design_ref="DESIGN.md section 4 (C06)",
+        technique="deterministic simulation: seeded histories of builds in fresh simulated processes on one cache, differential oracle against an isolated empty-cache build",
+        text=("Seeded histories of 6-12 builds, each a fresh simulated process, share one cache directory; configurations vary one "
+              "property at a time, swap values between properties, repeat values across properties and repeat earlier builds. Each "
+              "build must compute what the same configuration computes on an empty cache, distinct configurations must never "
+              "resolve to one cache entry, repeats must hit the cache without compiling. Sampling of the configuration space."),
+        note=("Environment fixed; clock/entropy simulated; compiler is the simcc stub (two identities) with memoised real g++ output; "
+              "Serial and OpenMP. The differential oracle cannot see a configuration whose own isolated build is wrong."),
+    ),
+    "C07": dict(
+        engine="procsim", category="exploration", design_ref="DESIGN.md section 4 (C07)",
+        technique="deterministic simulation: seeded histories of header edits, include-graph changes, reverts and clock jumps interleaved with builds in fresh simulated processes; textual reference model of the current files",
+        text=("Seeded histories of header edits (small content alphabet so equal contents, swaps and reverts are frequent), nested "
+              "#include toggles, reverts and clock jumps, interleaved with builds in fresh simulated processes on one cache. Every "
+              "build must terminate, exit cleanly and print the vector that a textual resolution of the current files gives."),
+        note=("Sequential builds only (concurrency is C09). Headers sit next to the kernel; include paths are not varied. A build still "
+              "running after 200000 file-system calls counts as non-terminating."),
+    ),
+    "C10": dict(
+        engine="procsim", category="exploration", design_ref="DESIGN.md section 4 (C10)",
+        technique="deterministic simulation of the cache history (fresh / cached / cached after concurrent builds) around a reference lattice for argument compatibility",
+        text=("Seeded kernel signatures and argument lists; the accept/raise decision of kernel.run() is recorded in a freshly compiling "
+              "process, in a second process loading from the cache, in 2-4 concurrently building processes under the seeded scheduler "
+              "and in a process loading afterwards; all vectors must equal a small reference rule and each other."),
+        note=("The type lattice is an input space; simulation contributes the cache histories. Typedef and fixed-array parameters are not "
+              "generated. Post-crash caches are not judged."),
+    ),
     "C08": dict(
         engine="procsim", category="fault_enumeration", design_ref="DESIGN.md section 4 (C08), 3.1",
         technique="deterministic simulation: seeded crash injection (kill before/after every file-system system call, torn writes) into a real build, follow-up builds as oracle",
